@@ -82,15 +82,39 @@ def famCtx (Fam : Family) (G : MG Name) (pops : List Name) (σ' : Val) (h : FamO
   S := famLeafSem Fam G pops σ' h
   sctx := ⟨h.target, h.wf, h.rank⟩
   ign := []
+  mark d v := (Fam.dom (some d)).kern v ≠ (Fam.dom none).kern v
 
 theorem rsub_self {G : MG Name} : RSub G G :=
   ⟨fun v hv => (mem_regularNodes.1 hv).1, fun u v _ _ h => MG.mem_parents.1 h, fun u v _ _ h => (hasBi_iff G u v).1 h⟩
 
+/-- a selection diagram of `G` (marked variables among the nodes, names below 100) is an induced super-graph of `G`
+on its regular nodes -/
+theorem rsub_ctd {G : MG Name} (hsmall : ∀ v ∈ G.nodes, v < 100) {ns : List Name} (hns : ∀ s ∈ ns, s ∈ G.nodes) :
+    RSub G (createTransportDiagram G ns) := by
+  refine ⟨?_, ?_, ?_⟩
+  · intro v hv
+    obtain ⟨hv1, hv2⟩ := mem_regularNodes.1 hv
+    rcases (ctd_mem_nodes G ns v).1 hv1 with h | ⟨s, hs, rfl | rfl⟩
+    · exact h
+    · rw [isTnode_tnode (hsmall s (hns s hs))] at hv2; cases hv2
+    · exact hns _ hs
+  · intro u v _ _ h
+    exact (ctd_mem_di G ns (u, v)).2 (Or.inl (MG.mem_parents.1 h))
+  · intro u v _ _ h
+    have := (hasBi_iff G u v).1 h
+    unfold MG.BiEdge at this ⊢
+    rw [ctd_bi]
+    exact this
+
 /-- **the initial query of `identify_target_outcomes` satisfies the semantic invariant** in the target context of every
-family whose target tag reads the target model -/
+family whose target tag reads the target model, provided every diagram of the query is a selection diagram of `G`
+(`hsub`) that carries a selection node at every variable where its domain may differ (`hmarks`) -/
 theorem famCtx_initial {Fam : Family} {G : MG Name} {pops : List Name} (σ' : Val) (h : FamOK Fam G pops)
     (htag : targetPop ∈ pops) (hT : Fam.dom (some targetPop) = Fam.dom none) (hnoT : ∀ v ∈ G.nodes, isTnode v = false)
-    (Y X : List Name) (graphs : List (Pop × MG Name)) (interventions : List (Pop × List Name)) :
+    (Y X : List Name) (graphs : List (Pop × MG Name)) (interventions : List (Pop × List Name))
+    (hsub : ∀ p ∈ graphs, RSub G p.2)
+    (hmarks : ∀ p ∈ graphs, ∀ v, (Fam.dom (some p.1)).kern v ≠ (Fam.dom none).kern v → v ∈ regularNodes p.2 →
+      (tnode v, v) ∈ p.2.di) :
     SemInv (famCtx Fam G pops σ' h) (initialQuery G Y X graphs interventions) G := by
   have hreg : regularNodes G = G.nodes := regularNodes_eq_of_noT hnoT
   have hokW : (famCtx Fam G pops σ' h).S.okW (some (popVar targetPop)) [] :=
@@ -123,7 +147,11 @@ theorem famCtx_initial {Fam : Family} {G : MG Name} {pops : List Name} (σ' : Va
   have hplain : ∀ v ∈ plainVars G.nodes, v.ivs = [] ∧ v.star = none ∧ v.isIv = false := jc.plain
   have hin : ∀ n ∈ vnames (plainVars G.nodes), n ∈ regularNodes G ∨ n ∈ (famCtx Fam G pops σ' h).ign := jc.within
   refine ⟨rsub_self, ⟨trivial, ?_⟩, trivial, ?_, fun _ _ => trivial, fun z hz => (by cases hz),
-    Or.inl ⟨popVar targetPop, plainVars G.nodes, rfl, jc⟩⟩
+    Or.inl ⟨popVar targetPop, plainVars G.nodes, rfl, jc⟩, fun _ _ => ⟨hsub, ?_, ⟨_, _, rfl⟩, hmarks⟩⟩
+  rotate_left 2
+  · intro a _ r hr
+    rw [hreg]
+    exact (h.wf.di_mem _ (MG.mem_parents.1 hr)).1
   · exact jc.adm (c' := plainVars G.nodes) (p' := []) (by simpa using hplain)
       (by intro v hv; rw [List.append_nil] at hv; exact hin v.name (List.mem_map_of_mem hv))
   · intro σ
